@@ -336,7 +336,7 @@ type c24run struct {
 	hookOverlapGen  int
 	dropsSeen       int64
 	dropsOverlapped int64
-	stepMaxNs   int64
+	stepMaxNs       int64
 }
 
 func payloadFor(seed int64, w, o, size int) []byte {
@@ -722,6 +722,24 @@ func wireOrder(l *link, hookWriter map[string]int) string {
 	return "the writer's frames on " + l.name() + " carry strictly increasing sequence numbers"
 }
 
+// wireSeqReuse reports whether the writer put one sequence number on two
+// different entries of this connection (as opposed to sending correctly
+// numbered entries in the wrong order). It only refines the rule id of a
+// violation, it never creates one.
+func wireSeqReuse(l *link) bool {
+	bySeq := map[uint64]string{}
+	for _, f := range l.half[1].sent {
+		if !f.Entry {
+			continue
+		}
+		if h, ok := bySeq[f.Seq]; ok && h != f.PHash {
+			return true
+		}
+		bySeq[f.Seq] = f.PHash
+	}
+	return false
+}
+
 func harnessError(msg string) {
 	fmt.Fprintf(os.Stderr, "HARNESS-ERROR %s\n", msg)
 	os.Exit(2)
@@ -834,6 +852,9 @@ func judgeC24(st *c24run, out *simkit.Outcome) {
 					reason = dropReason(rs.log.lines)
 					if reason == "no-reason-logged" && l.ends[0].midTO > 0 {
 						reason = "after-read-deadline-expired-mid-frame"
+					}
+					if reason == "sequence-not-advancing" && wireSeqReuse(l) {
+						reason += ".writer-numbered-two-entries-alike"
 					}
 				} else {
 					reason = "writer-side"
@@ -1007,6 +1028,7 @@ func shrinkC24(planAny any) []any {
 	add(func(q *C24Plan) bool { ok := q.StallWriterMs != 0; q.StallWriterMs = 0; return ok })
 	add(func(q *C24Plan) bool { ok := q.BufferSize != 10000; q.BufferSize = 10000; return ok })
 	add(func(q *C24Plan) bool { ok := q.AckMs != 1000; q.AckMs = 1000; return ok })
+	add(func(q *C24Plan) bool { ok := q.LogYield; q.LogYield = false; return ok })
 	add(func(q *C24Plan) bool {
 		ok := false
 		for i := range q.Writers {
@@ -1053,5 +1075,5 @@ func descC24(planAny any) any {
 	sort.Strings(kinds)
 	return map[string]any{"mode": p.Mode, "readers": p.Readers, "writers": len(p.Writers), "ops": ops, "buffer_size": p.BufferSize,
 		"checkpoint": p.Checkpoint, "early": p.Early, "faults": kinds, "latency_us": p.LatencyUs, "conn_cap": p.ConnCap,
-		"apply_delay_us": p.ApplyDelayUs, "reconnect_ms": p.ReconnectMs}
+		"apply_delay_us": p.ApplyDelayUs, "reconnect_ms": p.ReconnectMs, "log_yield": p.LogYield}
 }
